@@ -87,3 +87,11 @@ mod tests {
         assert!(elapsed >= Duration::from_millis(200) && elapsed < Duration::from_millis(300));
     }
 }
+
+/// Verification hooks: compiled only with `--cfg eigerco_lumina_verif` (see /verif).
+#[cfg(eigerco_lumina_verif)]
+#[doc(hidden)]
+#[allow(unused_imports, missing_docs, dead_code, unreachable_pub)]
+pub mod verif {
+    use super::*;
+}
